@@ -251,8 +251,8 @@ def _assembly_sparse(repo, col, R=None):
     seen = {}
     try:
         for st in fi.node.body:
-            if isinstance(st, ast.Assign) and any("spsolve" in unparse(x) for x in ast.walk(st.value) if isinstance(x, ast.Call)):
-                break
+            if any("spsolve" in unparse(x.func) for x in ast.walk(st) if isinstance(x, ast.Call)):
+                break   # the statement that hands the system to the solver (an assignment or the return itself)
             ev.run_body([st], env, ctx)
     except Und as e:
         col.unk(R, fi, "assembly of the generic sparse system", f"outside the analysable fragment: {e}", node=fi.node)
